@@ -28,7 +28,9 @@ static inline void body(void) {
   }
 }
 void vm_thread_1(void) { body(); }
+#if NF > 1
 void vm_thread_2(void) { body(); }
+#endif
 #if NF > 2
 void vm_thread_3(void) { body(); }
 #endif
